@@ -58,6 +58,10 @@ THEOREMS = [P + n for n in [
     "update_positions_copy",
     "meta_selects_lexeme",
     "generated_positions_shape_ok",
+    "merged_span_is_first_start_last_end",
+    "merged_span_covers_tokens",
+    "merged_span_line_witness",
+    "update_positions_keyword_form_ok",
     "parser_delegates_pass_sql",
     "raise_error_dropped_sql_witness",
     # highlight_sql
@@ -252,6 +256,56 @@ def token_error_violation(sql: str, e):
     return None
 
 
+def meta_tree_violation(sql: str, bypos: dict, trees):
+    """every node of the parsed trees that carries position meta selects its own lexeme (see parse_violation)"""
+    _, exp, *_ = sg()
+    for tree in trees or []:
+        if tree is None:
+            continue
+        for node in tree.walk():
+            m = node._meta
+            if not m or "start" not in m or m.get("start") is None:
+                continue
+            # EVERY node that carries position meta, whatever its class: the recorded span must be a token of the input
+            cls = type(node).__name__
+            ts = [t for t in bypos.get((m["start"], m["end"]), []) if t.line == m.get("line") and t.col == m.get("col")]
+            t = ts[0] if ts else None
+            if t is None:
+                # a parser-side merge of several adjacent tokens: the span is [first.start, last.end] and, by the tokenizer's
+                # convention (line/col describe the LAST character), line/col are those of the last token
+                firsts = [x for xs in bypos.values() for x in xs if x.start == m["start"]]
+                lasts = [x for xs in bypos.values() for x in xs if x.end == m["end"]]
+                if firsts and lasts and firsts[0].end < lasts[0].start:
+                    a, b = firsts[0], lasts[0]
+                    if (m.get("line"), m.get("col")) != (b.line, b.col):
+                        cause = "merge-line" if (m.get("line"), m.get("col")) == (a.line, b.col) else "pos"
+                        return ("meta", cause, -1, f"{cls} meta {m} spans tokens {a.text!r}..{b.text!r} but its line/col are not those "
+                                                   f"of the span's last character (line {b.line} col {b.col})")
+                    want = meta_lexeme(exp, node)
+                    norm = re.sub(r"[\s`\"\[\]]", "", sql[m["start"]:m["end"] + 1]).upper()
+                    if want is not None and re.sub(r"[\s`\"\[\]]", "", want).upper() != norm:
+                        return ("meta", "merged-name" if isinstance(node, exp.Identifier) else "lexeme", -1,
+                                f"{cls} {want!r} carries the multi-token span {sql[m['start']:m['end'] + 1]!r}")
+                    continue
+                cause = "pos"
+                if (isinstance(node, exp.Star) and (m.get("line"), m.get("col"), m["start"], m["end"]) == (1, 1, 0, 0)
+                        and sql[:1] != "*"):
+                    cause = "synthetic-star"  # a Star built by parsing the one-character text "*" (FROM-first / pipe syntax)
+                return ("meta", cause, -1, f"{cls} meta {m} does not coincide with a token span")
+            # classes with an obvious lexeme: the token the span selects must be that lexeme
+            want = meta_lexeme(exp, node)
+            if want is not None and not any(x.text == want or x.text.upper() == want.upper() for x in ts):
+                cause = "name" if isinstance(node, exp.Identifier) else "lexeme"
+                if isinstance(node, exp.Identifier) and want.upper().startswith("INFORMATION_SCHEMA."):
+                    cause = "merged-name"  # the INFORMATION_SCHEMA.<view> identifier must carry the span of both parts
+                if (isinstance(node, exp.Star) and (m.get("line"), m.get("col"), m["start"], m["end"]) == (1, 1, 0, 0)
+                        and sql[:1] != "*"):
+                    cause = "synthetic-star"  # the default span happens to coincide with a one-character first token
+                return ("meta", cause, -1, f"{cls} {want!r} carries the span of lexeme {sql[t.start:t.end + 1]!r} "
+                                           f"(line {m.get('line')} col {m.get('col')} start {m['start']} end {m['end']})")
+    return None
+
+
 def meta_lexeme(exp, node):
     """the lexeme a node with position meta claims to describe, for the classes where that is unambiguous (else None)"""
     if isinstance(node, exp.Identifier):
@@ -311,32 +365,9 @@ def parse_violation(sql: str, d):
             continue
         except Exception:
             continue  # other exception kinds are C05's business
-        for tree in trees or []:
-            if tree is None:
-                continue
-            for node in tree.walk():
-                m = node._meta
-                if not m or "start" not in m or m.get("start") is None:
-                    continue
-                # EVERY node that carries position meta, whatever its class: the recorded span must be a token of the input
-                cls = type(node).__name__
-                ts = [t for t in bypos.get((m["start"], m["end"]), []) if t.line == m.get("line") and t.col == m.get("col")]
-                t = ts[0] if ts else None
-                if t is None:
-                    cause = "pos"
-                    if (isinstance(node, exp.Star) and (m.get("line"), m.get("col"), m["start"], m["end"]) == (1, 1, 0, 0)
-                            and sql[:1] != "*"):
-                        cause = "synthetic-star"  # a Star built by parsing the one-character text "*" (FROM-first / pipe syntax)
-                    return ("meta", cause, -1, f"{cls} meta {m} does not coincide with a token span")
-                # classes with an obvious lexeme: the token the span selects must be that lexeme
-                want = meta_lexeme(exp, node)
-                if want is not None and not any(x.text == want or x.text.upper() == want.upper() for x in ts):
-                    cause = "name" if isinstance(node, exp.Identifier) else "lexeme"
-                    if (isinstance(node, exp.Star) and (m.get("line"), m.get("col"), m["start"], m["end"]) == (1, 1, 0, 0)
-                            and sql[:1] != "*"):
-                        cause = "synthetic-star"  # the default span happens to coincide with a one-character first token
-                    return ("meta", cause, -1, f"{cls} {want!r} carries the span of lexeme {sql[t.start:t.end + 1]!r} "
-                                               f"(line {m.get('line')} col {m.get('col')} start {m['start']} end {m['end']})")
+        v = meta_tree_violation(sql, bypos, trees)
+        if v is not None:
+            return v
     return None
 
 
@@ -427,9 +458,18 @@ def entry_violation(sql: str, d):
     real = [t for t in toks if not (t.token_type == TT.HIVE_TOKEN_STREAM and t.text == "")]
     has_hint = any(t.token_type == TT.HINT for t in toks)
     ctx = 100
+    bypos: dict = {}
+    for t in real:
+        bypos.setdefault((t.start, t.end), []).append(t)
     for name, fn in entry_points(d):
         try:
-            fn(sql)
+            res = fn(sql)
+            trees = res if isinstance(res, list) else [res]
+            trees = [x for x in trees if isinstance(x, exp.Expr)]
+            if trees and name != "parse":
+                v = meta_tree_violation(sql, bypos, trees)
+                if v is not None:
+                    return (v[0], v[1], v[2], name + ": " + v[3])
         except ParseError as e:
             for err in e.errors:
                 ln, co, hl = err.get("line"), err.get("col"), err.get("highlight")
@@ -498,6 +538,58 @@ def check_sql_premise(chk: Check) -> list:
     chk.cov["sql_premise"] = {"dialects": [d or "base" for d in dialects], "entry_points": len(entry_points(None)),
                               "inputs": len(ERROR_INPUTS), "violations": len(bad)}
     return [(d, sql) for d, sql, _, _ in bad]
+
+
+def merge_line_probe() -> bool:
+    """does the INFORMATION_SCHEMA merge record the line of the LAST part (repaired) or of the first part?"""
+    sqlglot, exp, *_ = sg()
+    try:
+        t = sqlglot.parse_one("select * from INFORMATION_SCHEMA\n.TABLES", read="bigquery")
+        for n in t.find_all(exp.Identifier):
+            if n.name.upper() == "INFORMATION_SCHEMA.TABLES":
+                return n.meta.get("line") == 2
+    except Exception:
+        pass
+    return False
+
+
+def update_positions_keyword_branch(chk: Check) -> list:
+    """the statements of update_positions' keyword (`other is None`) branch, as source text"""
+    import ast
+
+    try:
+        src = open(os.path.join(REPO, "sqlglot", "expressions", "core.py"), encoding="utf-8").read()
+        tree = ast.parse(src)
+        for fn in ast.walk(tree):
+            if isinstance(fn, ast.FunctionDef) and fn.name == "update_positions" and not (
+                    len(fn.body) and isinstance(fn.body[-1], ast.Raise)):
+                top = [st for st in fn.body if isinstance(st, ast.If)]
+                node = top[0]
+                while node.orelse and len(node.orelse) == 1 and isinstance(node.orelse[0], ast.If):
+                    node = node.orelse[0]
+                return [ast.unparse(st) for st in node.orelse]
+    except Exception as e:  # noqa
+        chk.broken.append({"kind": "translator", "what": f"C13 translator: structure changed: update_positions not recognised ({e!r})"})
+    chk.broken.append({"kind": "translator", "what": "C13 translator: structure changed: update_positions keyword branch not found"})
+    return []
+
+
+def position_merge_sites(chk: Check) -> list:
+    """every call of update_positions in the keyword form (line= / col= / start= / end=) in parser.py and parsers/*.py:
+    (site, sorted keyword names)"""
+    import ast
+    import glob
+
+    rows = []
+    for f in [os.path.join(REPO, "sqlglot", "parser.py")] + sorted(glob.glob(os.path.join(REPO, "sqlglot", "parsers", "*.py"))):
+        tree = ast.parse(open(f, encoding="utf-8").read())
+        for fn in ast.walk(tree):
+            if isinstance(fn, ast.FunctionDef):
+                for c in ast.walk(fn):
+                    if (isinstance(c, ast.Call) and isinstance(c.func, ast.Attribute) and c.func.attr == "update_positions"
+                            and any(k.arg in POS_KEYS for k in c.keywords)):
+                        rows.append((os.path.relpath(f, REPO) + ":" + fn.name, sorted(k.arg for k in c.keywords if k.arg)))
+    return sorted(rows)
 
 
 def delegate_table(chk: Check) -> list:
@@ -608,9 +700,18 @@ def skeleton(sql: str, d) -> str:
     return "".join(out)
 
 
+_REPORTED: dict = {}
+
+
 def report(chk: Check, sql: str, d, v, which: str):
-    """minimise, key and report one violation found by `which` in ('tokens', 'parse')."""
+    """minimise, key and report one violation found by `which` in ('tokens', 'parse', 'entry')."""
     kind, cause = v[0], v[1]
+    # a cause already matched by a known finding several times is not minimised again and again (the search budget is for new ones)
+    if cause and _REPORTED.get((id(chk), kind, cause, d), 0) >= 3 and any(
+            k.get("property") == "C13" and k.get("kind") == "known" for k, _ in chk.known_hits):
+        if not any(vv["key"].startswith(f"{kind}:{cause}|") for vv in chk.violations):
+            return
+    _REPORTED[(id(chk), kind, cause, d)] = _REPORTED.get((id(chk), kind, cause, d), 0) + 1
     fn = {"tokens": token_violation, "parse": parse_violation, "entry": entry_violation}[which]
 
     def pred(s):
@@ -943,6 +1044,10 @@ def translate(chk: Check) -> str:
         "/-- structural facts read with `ast` from Parser.raise_error and expressions/core.py -/",
         f"def positionMetaKeys : List String := {lstrs(position_meta_keys())}",
         f"def raiseErrorShape : List String := {lstrs(raise_error_shape(chk))}",
+        f"def mergeLineOfLast : Bool := {lean_bool(merge_line_probe())}",
+        f"def updatePositionsKeywordBranch : List String := {lstrs(update_positions_keyword_branch(chk))}",
+        "def positionMergeSites : List (String × List String) := ["
+        + ", ".join(f"({lean_str(a)}, {lstrs(b)})" for a, b in position_merge_sites(chk)) + "]",
         "/-- every delegate call to .parse / .parse_into / ._parse made from a function that holds the statement text `sql`:",
         "    (site, callee, hands `sql` on) -/",
         "def parserDelegates : List (String × String × Bool) := ["
@@ -1033,6 +1138,41 @@ def real_update_positions(init, src):
         node.update_positions(line=v[0], col=v[1], start=v[2], end=v[3])
     m = node._meta or {}
     return [m[k] if k in m else "A" for k in POS_KEYS]
+
+
+INFO_VIEWS = ["TABLES", "COLUMNS", "`TABLES`", "SCHEMATA", "views"]
+
+
+def gen_info_schema(rng) -> str:
+    seps = ["", "", " ", "\n", "\r\n", "\n  ", "\t"]
+    qual = rng.choice(["", "ds.", "proj.ds.", "`region-us`.", "`p`.`d`."])
+    isn = rng.choice(["INFORMATION_SCHEMA", "information_schema", "`INFORMATION_SCHEMA`"])
+    core = qual + isn + rng.choice(seps) + "." + rng.choice(seps) + rng.choice(INFO_VIEWS)
+    if rng.random() < 0.25:
+        return core + rng.choice(["", " t", " as v"])  # a bare table reference (into=Table): the merged span starts at offset 0
+    lead = rng.choice(["select * from ", "select a,\n b from\n ", "select 1 from t join "])
+    tail = rng.choice(["", " t", " as v where a = 1", "\nwhere x > 0"])
+    return lead + core + tail
+
+
+def real_merge(sql: str):
+    """(meta of the INFORMATION_SCHEMA token, meta of the view-name token, meta recorded on the merged identifier)"""
+    sqlglot, exp, _, _, TT, TokenError, ParseError, *_ = sg()
+    dl, _ = tok_class("bigquery")
+    try:
+        toks = dl.tokenize(sql)
+        tree = dl.parser().parse(list(toks), sql)[0]
+    except Exception:
+        return None
+    idx = [i for i, t in enumerate(toks) if t.text.upper() == "INFORMATION_SCHEMA"]
+    if len(idx) != 1 or idx[0] + 2 >= len(toks) or toks[idx[0] + 1].token_type != TT.DOT:
+        return None
+    a, b = toks[idx[0]], toks[idx[0] + 2]
+    merged = [n for n in tree.find_all(exp.Identifier) if n.name.upper() == "INFORMATION_SCHEMA." + b.text.upper()]
+    if len(merged) != 1:
+        return None
+    m = merged[0]._meta or {}
+    return ([a.line, a.col, a.start, a.end], [b.line, b.col, b.start, b.end], [m[k] if k in m else "A" for k in POS_KEYS])
 
 
 def supported_chars(sql: str) -> bool:
@@ -1130,6 +1270,16 @@ def correspond(chk: Check) -> list:
         lines.append(json.dumps({"op": "meta", "init": init, "src": src}))
         expect.append(json.dumps(real_update_positions(init, src), separators=(",", ":")))
         meta.append(("meta", None, (init, src)))
+    # the INFORMATION_SCHEMA merge site of the BigQuery parser, on real parses
+    for _ in range(chk.pick(150, 1500)):
+        sq = gen_info_schema(rng)
+        r = real_merge(sq)
+        if r is None:
+            continue
+        first, last, got_meta = r
+        lines.append(json.dumps({"op": "merge", "first": first, "last": last}))
+        expect.append(json.dumps(got_meta, separators=(",", ":")))
+        meta.append(("merge", "bigquery", sq))
     got = chk.driver("C13", lines)
     hints = []
     unsupported = 0
@@ -1191,6 +1341,9 @@ WITNESSES = [
     ("bigquery", "SELECT * EXCEPT (a, b) FROM t"), ("snowflake", "SELECT * ILIKE '%id%' FROM t"),
     ("snowflake", "select a,\n  t.* rename (a as b)\nfrom t"), ("duckdb", "select * exclude (a) replace (b as c) from t"),
     ("duckdb", "from t"), ("clickhouse", "$a\nb$$a\nb$ x"),
+    ("bigquery", "select * from region.INFORMATION_SCHEMA.TABLES"), ("bigquery", "select * from INFORMATION_SCHEMA\n  .TABLES t"),
+    ("bigquery", "select * from `p`.ds.INFORMATION_SCHEMA.\nCOLUMNS where a = 1"), ("bigquery", "INFORMATION_SCHEMA.TABLES"),
+    ("bigquery", "INFORMATION_SCHEMA.COLUMNS t"),
 ]
 
 
@@ -1236,7 +1389,7 @@ def search(chk: Check, hints: list, budget_s: float) -> None:
     for d, s in WITNESSES + list(hints)[:60]:
         if len(chk.violations) >= 3:
             break
-        consider(d, s, parse=True)
+        consider(d, s, parse=True, entry=True)
     i = 0
     while time.time() - t0 < budget_s and len(chk.violations) < 3:
         i += 1
@@ -1248,7 +1401,10 @@ def search(chk: Check, hints: list, budget_s: float) -> None:
             s = gen_dialect_soup(rng, d)
         else:
             s = gen_statement(rng)
-        consider(d, s, parse=(r >= 2) or rng.random() < 0.3)
+        info = i % 40 == 7
+        if info:
+            d, s, r = "bigquery", gen_info_schema(rng), 2
+        consider(d, s, parse=(r >= 2) or rng.random() < 0.3, entry=info)
         chk.case(("search", d, s), nontrivial=True)
         chk.count("search:" + ("soup", "dialect-soup", "statement", "statement")[r])
     chk.search_info = {"ran": True, "budget_s": budget_s, **n,
